@@ -319,16 +319,22 @@ def k3(ctx, facts, tables, disp, cfg):
     ctx.check(ok, "K3.entry", "apply parses its first argument and evaluates against its second (%s)" % cfg,
               "entry point does not have the shape parse(rule)?.evaluate(data)", where=ap.where(), nontrivial=True, fn=ap.key)
     r = strip_refs(ap.trace(0))
+    # decision cases of the entry point: on success it returns the evaluation's payload through the faithful conversion,
+    # on failure the error of the parse or of the evaluation — nothing else (`.map(Value::from)`, `Ok(x?.into())`, match …)
+    from . import optnorm
     okr = False
-    if r[0] == "phi":
-        cands = [strip_refs(x) for x in r[2]]
-    else:
-        cands = [r]
-    for c in cands:
-        if c[0] == "call" and c[1] and c[1]["path"] == "std::result::Result::<T, E>::map":
-            src = strip_refs(c[2][0])
-            f = c[2][1]
-            fk = f[1].get("fn", {}).get("resolved", {}) if f[0] == "const" else {}
-            if src[0] == "call" and src[1]["path"].endswith("::evaluate") and (fk or {}).get("key") == conv.key:
-                okr = True
+    cases = optnorm.decision_cases(facts, ap)
+    if cases is not None:
+        good, other = 0, []
+        for conds, v, pth in cases:
+            v = strip_refs(v)
+            if (v[0] == "call" and v[1] and "from_residual" in v[1]["path"]) or (v[0] == "agg" and v[1].get("variant") == "Err"):
+                continue
+            inner = strip_refs(v[2][0]) if (v[0] == "agg" and v[1].get("variant") == "Ok" and v[2]) else None
+            isconv = inner is not None and inner[0] == "call" and inner[1] and (inner[1].get("key") == conv.key or conv.key in {y.get("key") for y in (inner[1].get("fwd") or []) if isinstance(y, dict)})
+            if isconv and inner[2] and strip_refs(inner[2][0])[0] == "payload" and ("::evaluate@" in strip_refs(inner[2][0])[1] or "evaluate" in strip_refs(inner[2][0])[1]):
+                good += 1
+            else:
+                other.append(show_expr(v)[:80])
+        okr = good >= 1 and not other
     ctx.check(okr, "K3.entry-result", "apply returns the evaluation result converted by identity (%s)" % cfg, "apply's result is %s" % show_expr(r), where=ap.where(), nontrivial=True, fn=ap.key)
